@@ -23,7 +23,7 @@ KANI = {
 MIR_NOTE = ("Trusted base: nightly rustc's MIR dump of /repo's current source is the program analysed; the environment push calls into (clock, verifier, "
             "metadata parser, std maps/vectors/iterators, formatting) is replaced by the stubs listed in native/mirpool.py and in the evidence; pre-state "
             "assumptions are listed in the evidence; z3. The engine is validated on every run against real ProofPool runs (csx-emit poolrun).")
-MIR_TECH = ("symbolic execution of the MIR of the function under check (ProofPool::push (all basic blocks, path enumeration) for C19/C22, commit_staging_dir_impl + generate_all_circuit_binaries for C23; all basic blocks, path enumeration) into z3 (Int + Array theories), one step from an arbitrary "
+MIR_TECH = ("symbolic execution of the MIR of the function under check (ProofPool::push (all basic blocks, path enumeration) for C19/C22, commit_staging_dir_impl + generate_all_circuit_binaries for C23, the two template validators and their six callers for C16; all basic blocks, path enumeration) into z3 (Int + Array theories), one step from an arbitrary "
             "state with the environment (clock, verifier, std containers, filesystem) replaced by symbolic stubs whose every call may fail; counterexamples are turned into a concrete history / fault schedule and replayed on the REAL code, judged by an executable spec")
 MIRPOOL = {
  "C19": ("model_checking", "4.2 (C19/C22)", "One push from an arbitrary pool state: Ok exactly under the documented conjunction (with the pool's own window decision), rejected pushes leave maps/counts/index "
@@ -32,6 +32,8 @@ MIRPOOL = {
          "verification attempted iff earlier rules pass and counter < limit, counter charged before verifying; inductive invariant counter <= limit and ghost 'attempts since window start' == counter."),
  "C23": ("model_checking", "4.3 (C23)", "Publish routine (commit_staging_dir_impl) from its MIR over a 3-location filesystem model: with every rename/remove_dir_all able to fail and a crash possible after every operation, "
          "the output path always holds the complete previous or complete new set, or is empty while both copies survive; Ok iff the new set is live; failed generation never touches the output and removes its staging dir."),
+ "C16": ("model_checking", "4.4 (C16)", "Both template validators from their MIR: Ok exactly when the parsed public inputs carry the complete sentinel and the proof verifies (exit-slot lists <= 3 quick / 8 thorough); "
+         "the six functions that accept a template cannot return Ok without a successful validator call (over-approximated MIR paths). Parsers stubbed (C24)."),
 }
 
 CHECKS = {
